@@ -322,6 +322,10 @@ RULES = [
 ]
 
 
+from . import shared
+RULES = RULES + shared.bundle('C06', ['carry', 'gate', 'restart', 'driver', 'values', 'stride'], ['details'])
+
+
 def run(tier="quick", replay=None):
     return run_check(
         "C06", RULES, tier=tier, replay=replay,
